@@ -392,14 +392,6 @@ Definition k_wal_rot := k_wal_rotation.
 Definition k_rdf_torn := k_rdf.
 Definition k_label_torn := k_label.
 Definition k_deadlock := k_label_deadlock.
-(** create_edge and delete_edge of an edge id that the starting graph does not contain (the edge
-    being created by another thread: its id is visible through the edge map before the adjacency
-    lists are updated) *)
-Definition k_edge_torn (lo : Z) (progs : list (list gop)) : bool :=
-  let n := length progs in
-  existsb (fun i => existsb (fun j => negb (Nat.eqb i j) &&
-     existsb (fun op => match op with GCreateEdge _ _ => true | _ => false end) (nth i progs []) &&
-     existsb (fun op => match op with GDeleteEdge e => lo <=? e | _ => false end) (nth j progs [])) (seq 0 n)) (seq 0 n).
 Definition k_buf_resize (progs : list (list bop)) : bool :=
   existsb (existsb (fun op => match op with BResize _ _ => true | _ => false end)) progs.
 Definition k_buf_pre (progs : list (list bop)) : bool :=
